@@ -3,9 +3,11 @@
 package c07
 
 import (
+	"bufio"
 	"bytes"
 	"context"
 	"encoding/json"
+	"flag"
 	"fmt"
 	"math/rand/v2"
 	"os"
@@ -169,7 +171,7 @@ func entries() []*entry {
 			return true, err
 		}},
 		{"extract.Endorsement/quote", []string{"snp", "tdx", "certtable"}, func(e *env) (bool, error) {
-			_, err := extract.Endorsement(&extract.Options{Quote: e.b, Getter: &doubles.Getter{Default: e.w.endBytes}, ForceFetch: e.forceFetch})
+			_, err := extract.Endorsement(&extract.Options{Quote: e.b, Getter: &doubles.Getter{Default: e.w.endBytes, Fail: e.getterFails}, ForceFetch: e.forceFetch})
 			return true, err
 		}},
 		{"extract.Endorsement/eventlog", []string{"eventlog"}, func(e *env) (bool, error) {
@@ -543,6 +545,48 @@ func (w *world) materialize(s spec, r *rand.Rand) (b []byte, gname, class, sname
 
 type tally struct{ GenuineOK, MutantOK, MutantErr int }
 
+const deathCap = 4
+
+// deathsByEntry reads this shard's own event log (the supervisor appends a restart record after
+// every death; the case record before it names the entry point that was running).
+func deathsByEntry() map[string]int {
+	out := map[string]int{}
+	f := flag.Lookup("log")
+	if f == nil || f.Value.String() == "" {
+		return out
+	}
+	fh, err := os.Open(f.Value.String())
+	if err != nil {
+		return out
+	}
+	defer fh.Close()
+	sc := bufio.NewScanner(fh)
+	sc.Buffer(make([]byte, 1<<20), 64<<20)
+	last := ""
+	for sc.Scan() {
+		l := sc.Bytes()
+		switch {
+		case bytes.Contains(l, []byte(`"ev":"case"`)):
+			var rec struct {
+				Entry string `json:"entry"`
+			}
+			// the input is the bulk of the line; the entry is all that is needed
+			if i := bytes.Index(l, []byte(`"entry":"`)); i >= 0 {
+				rest := l[i+9:]
+				if j := bytes.IndexByte(rest, '"'); j >= 0 {
+					rec.Entry = string(rest[:j])
+				}
+			}
+			last = rec.Entry
+		case len(l) < 200 && bytes.Contains(l, []byte(`"restart"`)): // written by the supervisor (Python JSON spacing)
+			if last != "" {
+				out[last]++
+			}
+		}
+	}
+	return out
+}
+
 func run(c *core.Ctx) {
 	w := mkWorld()
 	w.fresh = c.SkipTo == 0
@@ -550,6 +594,13 @@ func run(c *core.Ctx) {
 	defer w.cleanup()
 	specs := w.specs(c)
 	ents := entries()
+	// An entry point that killed the worker process deathCap times in this shard is not called again in
+	// this shard (each death is already a violation; a decoder that dies on most inputs would otherwise
+	// cost one process restart per case). The suppression is visible as a floor and a counter.
+	deaths := map[string]int{}
+	if c.SkipTo > 0 {
+		deaths = deathsByEntry()
+	}
 	lim := newASLimiter()
 	if lim.active {
 		c.Note("allocation budget is also enforced as a per-call soft RLIMIT_AS (current size + budget + 512 MiB, hard limit %d MiB)", lim.hard/mib)
@@ -641,20 +692,27 @@ func run(c *core.Ctx) {
 			if !s.cross && !en.native(kind) {
 				continue
 			}
+			if deaths[en.name] >= deathCap {
+				c.Count("suppressed-after-repeated-deaths/"+en.name, 1)
+				continue
+			}
 			if en.name == "extract.Endorsement/eventlog" && !elWritten {
 				if err := os.WriteFile(w.elPath, b, 0o644); err != nil {
 					panic(err)
 				}
 				elWritten = true
 			}
+			// The input goes into the case record of the first call (flushed before the call). In the thorough
+			// tier inputs above 4 KiB are not logged (hundreds of MB otherwise): the generator path is an exact
+			// recipe and `--replay` regenerates the bytes from (seed, case index).
 			var in []byte
-			if first {
+			if first && (!c.Thorough() || len(b) <= 4096) {
 				in = b
 				if in == nil {
 					in = []byte{}
 				}
-				first = false
 			}
+			first = false
 			c.Begin(i, gname, en.name, in)
 			var ran bool
 			var err error
@@ -731,5 +789,6 @@ func run(c *core.Ctx) {
 			c.Floor("mutant-rejected/"+n, t.MutantErr > 0)
 		}
 		c.Count("mutants-accepted/"+n, t.MutantOK)
+		c.Floor("not-suppressed/"+n, deaths[n] < deathCap)
 	}
 }
